@@ -17,6 +17,43 @@ CLAIMS = {
              "theorems; translators translate/ops.py, translate/gatecode.py; gcc's two's-complement bitwise operators.",
         technique="Rocq/Coq proof over a model regenerated from source by translator (ring/nra/Z.testbit lemmas) + differential cross-check",
     ),
+    "C01": dict(
+        category="proof",
+        text="Coq theorem for EVERY dense network (any depth, widths, wiring incl. self pairs, gates, leading Flatten), every "
+             "word size and every input: the Gallina generator model gen_dense produces a program whose execution in the "
+             "modelled C fragment succeeds and equals the reference circuit in every bit lane (induction over layers incl. the "
+             "ping-pong buffers); composed with the proved pack/adder/unpack wrapper and host model it gives the per-class counts "
+             "for every batch size, and 0/1 outputs without GroupSum. The generator model is tied to get_c_code() by parsing the "
+             "emitted text of every sampled model and checking syntactic equality with gen_dense inside Coq; real gcc runs at "
+             "-O0..-O3 on exhaustive inputs are compared with eval-mode PyTorch and the reference circuit.",
+        design_ref="DESIGN.md section 6 C01",
+        note="Coq kernel (theorems closed under the global context); strict C parser; gcc/clang on the straight-line fragment; "
+             "PyTorch eval forward = reference circuit is exercised, not proved.",
+        technique="Rocq/Coq proof (induction over the layer list of a generator model; Z.testbit lane lemmas) + text-equality and differential correspondence",
+    ),
+    "C05": dict(
+        category="proof",
+        text="Coq theorems: lane r of a packed word is row r's bit for every lane incl. the sign lane; for ANY lane-wise logic_net "
+             "the host+wrapper model returns, for every batch size, map per_row rows (a function of each row alone; padding, "
+             "position, other rows and W do not occur); every index used by the wrapper is inside its array for every number of "
+             "words. Wrapper and host code are tied by token/statement equality translators, a recorder in place of lib_fn, real "
+             "forward on sub-batches/permutations for batch sizes 1..3W+1, kernel evaluation of the model vs real runs, and an "
+             "ASan/UBSan standalone driver.",
+        design_ref="DESIGN.md section 6 C05",
+        note="Coq kernel (closed theorems); translators translate/wrapper.py; numpy/ctypes behaviour observed, not proved; gcc shift semantics.",
+        technique="Rocq/Coq proof (list/Z.testbit induction, refinement of host+wrapper to a per-row function) + differential and sanitizer correspondence",
+    ),
+    "C06": dict(
+        category="proof",
+        text="Coq theorems: GroupSum over exact rationals is count/tau per consecutive group for any leading shape and rejects "
+             "non-divisible widths; the bit-sliced ripple-carry adder plus unpack returns the exact popcount in every lane for "
+             "EVERY group size (induction on the added words, no-overflow invariant), and the translated width expression satisfies "
+             "g < 2^width for all g. Tied by translators, exact comparison with torch GroupSum, a real compiled identity network "
+             "realising every count 0..g for every g up to 40/300, and evaluation of the Python float width expression for all g up to 2^16/2^20.",
+        design_ref="DESIGN.md section 6 C06",
+        note="Coq kernel (closed theorems); translators; Python binary64 log2 beyond the checked range is assumed.",
+        technique="Rocq/Coq proof (induction on accumulator/added words, Z.log2_up spec) + differential correspondence",
+    ),
 }
 
 NOT_YET = "not yet built in this revision of /verif (work in progress; see DESIGN.md section 9 build order)"
